@@ -64,7 +64,18 @@ def check(name, S, arg, cfg, driver, order, out, tier, label='', frag=''):
     out.cover('fragments', frag)
     out.case((name, gen.arg_key(arg)), nontrivial=(r.outcome == 'INVALID' and r.steps >= 2))
     if r.outcome == 'ERROR':
-        out.count('errored_runs_left_to_C09')
+        # does the same configuration succeed without the model builder? then building the model is what failed,
+        # and the INVALID verdict comes without the countermodel the property promises
+        r0 = pc.run_cfg(name, arg, cfg, driver, order, tier, models=False)
+        if r0.outcome == 'INVALID':
+            out.count('model_builder_errors')
+            out.violation('model-builder-raises',
+                          dict(logic=name, argument=gen.arg_to_json(arg), label=label, **pc.cfg_json(cfg, driver, order), error=r.error),
+                          dict(clause='model-builder-raises-on-invalid-run', family=S.base_name, error=r.error['type'], site=r.error['site']),
+                          f'{name}: {gen.show_arg(arg)} is INVALID but building the models raised {r.error}',
+                          size=gen.arg_size(arg), env=pc.env_for(order))
+        else:
+            out.count('errored_runs_left_to_C09')
         return
     if r.outcome != 'INVALID':
         return
